@@ -191,6 +191,50 @@ def synchroniser_stage(f, name):
     return name in stages and bool(loads) and all(len(n.args) == 1 and from_pin(n.args[0]) for n in loads)
 
 
+def synchroniser_is_reset_less(rep, idx):
+    """The input synchroniser samples a pin that knows nothing of the clock domain's reset: its stages are declared reset_less=True, so a
+    reset of the domain does not wipe the pipeline (Input keeps reporting the pin levels, delayed by exactly input_stages cycles)."""
+    f = idx.find_func("gpio:Peripheral.elaborate")
+    chain = set()
+
+    def from_pin(e):
+        while isinstance(e, ast.Subscript):
+            e = e.value
+        if isinstance(e, ast.Attribute) and e.attr == "i":
+            return True
+        if isinstance(e, ast.Call) and isinstance(e.func, ast.Name) and e.func.id == "Cat" and e.args:
+            return all(from_pin(a) for a in e.args)
+        return isinstance(e, ast.Name) and e.id in chain
+    sigs = {}
+    for n in ast.walk(f.node):
+        if isinstance(n, ast.Assign) and len(n.targets) == 1 and isinstance(n.targets[0], ast.Name) and isinstance(n.value, ast.Call) and \
+                ast.unparse(n.value.func) in ("Signal", "Signal.like"):
+            sigs[n.targets[0].id] = n
+    for _ in range(4):
+        for n in ast.walk(f.node):
+            if isinstance(n, ast.Assign) and len(n.targets) == 1 and isinstance(n.targets[0], ast.Name):
+                if from_pin(n.value) or (isinstance(n.value, ast.Name) and n.value.id in sigs and n.value.id in chain):
+                    chain.add(n.targets[0].id)
+        # a register loaded (sync) from the chain is itself part of the chain
+        for n in ast.walk(f.node):
+            if isinstance(n, ast.AugAssign) and isinstance(n.target, ast.Attribute) and n.target.attr == "sync":
+                for x in ast.walk(n.value):
+                    if isinstance(x, ast.Call) and isinstance(x.func, ast.Attribute) and x.func.attr == "eq" and isinstance(x.func.value, ast.Name) and \
+                            x.func.value.id in sigs and len(x.args) == 1 and from_pin(x.args[0]):
+                        chain.add(x.func.value.id)
+    stages = sorted(nm for nm in sigs if nm in chain)
+    for nm in stages:
+        call = sigs[nm].value
+        rl = next((k.value for k in call.keywords if k.arg == "reset_less"), None)
+        ok = isinstance(rl, ast.Constant) and rl.value is True
+        rep.check(ok, "C16.6", f.site, f"synchroniser stage `{nm}` is reset_less",
+                  f"created as {ast.unparse(call)[:70]}: a reset of the clock domain clears the stage, so for up to input_stages cycles the Input "
+                  "register reads 0 for a pin that has been high all along (the pin is not reset with the domain)", nontrivial=False)
+    if not stages:
+        rep.ok("C16.6", f.site, "synchroniser stages are reset_less", "no register is loaded from the pin inputs here (another synchroniser shape)",
+               nontrivial=False)
+
+
 def run(rep, idx, tier):
     rep.explanation = EXPLANATION
     rep.assume("A2", "A3", "A4", "A7")
@@ -213,6 +257,7 @@ def run(rep, idx, tier):
     oa = output_action_class(idx)
     _glue.reset_discipline(rep, "C16.6", idx, ["gpio:Peripheral", oa if oa is not None else "gpio:Peripheral.Output._FieldAction"],
                            allowed=[("Peripheral", "pin_i_sync_ff")], allowed_role=synchroniser_stage)
+    synchroniser_is_reset_less(rep, idx)
     _glue.write_once_handles(rep, "C16.6", idx, "gpio:Peripheral")
     _glue.vector_mux_selectors(rep, "C16.4", idx, "gpio:Peripheral.elaborate", "no pin's mode switches another pin's drivers through a Mux selector")
     _glue.param_refusals(rep, "C16.5", idx, only=["gpio:Peripheral.__init__"])
